@@ -76,6 +76,9 @@ var targets = []string{
 	"RouterJSR311.detectDispatcher",
 	"RouterJSR311.SelectRoute",
 	"wantsCompressedResponse",
+	"insertMime",
+	"sortedMimes",
+	"Response.EntityWriter",
 	"Container.addHandler",
 	"WebService.RemoveRoute",
 	"RouterJSR311.extractParams",
@@ -101,15 +104,18 @@ var fuel = map[string]string{
 
 // externs: functions that stay uninterpreted (fields of Ext), with their Lean type
 var externs = map[string]string{
-	"regexp.MatchString": "Str → Str → Bool × GoErr",
-	"regexp.QuoteMeta":   "Str → Str",
-	"path.Join":          "Str → Str → Str",
-	"hasCustomVerb":      "Str → Bool",
-	"isMatchCustomVerb":  "Str → Str → Bool",
-	"removeCustomVerb":   "Str → Str",
-	"strings.TrimSpace":  "Str → Str",
-	"strings.ToLower":    "Str → Str",
-	"strconv.Itoa":       "Int → Str",
+	"regexp.MatchString":              "Str → Str → Bool × GoErr",
+	"regexp.QuoteMeta":                "Str → Str",
+	"path.Join":                       "Str → Str → Str",
+	"hasCustomVerb":                   "Str → Bool",
+	"isMatchCustomVerb":               "Str → Str → Bool",
+	"removeCustomVerb":                "Str → Str",
+	"strings.TrimSpace":               "Str → Str",
+	"strings.ToLower":                 "Str → Str",
+	"strconv.Itoa":                    "Int → Str",
+	"strconv.ParseFloat":              "Str → Int → GoFloat × GoErr",
+	"trimOWS":                         "Str → Str",
+	"entityAccessRegistry.accessorAt": "Str → GoAccessor × Bool",
 }
 
 var fset = token.NewFileSet()
@@ -184,6 +190,10 @@ func leanType(e ast.Expr) string {
 			return "Bool"
 		case "error":
 			return "GoErr"
+		case "float64":
+			return "GoFloat"
+		case "EntityReaderWriter":
+			return "GoAccessor"
 		}
 	case *ast.ArrayType:
 		if x.Len == nil {
@@ -223,6 +233,8 @@ func zero(t string) string {
 		return "false"
 	case t == "GoErr":
 		return "(none : GoErr)"
+	case t == "GoAccessor":
+		return "(default : GoAccessor)"
 	case strings.HasPrefix(t, "List "):
 		return "([] : " + t + ")"
 	case strings.HasPrefix(t, "Option "):
@@ -411,6 +423,8 @@ func (t *tr) expr(e ast.Expr) (string, bool) {
 		switch x.Kind {
 		case token.INT:
 			return "(" + x.Value + " : Int)", false
+		case token.FLOAT:
+			return "(" + ext("float.lit", "String → GoFloat") + " " + strconv.Quote(x.Value) + ")", false
 		case token.STRING:
 			s, err := strconv.Unquote(x.Value)
 			if err != nil {
@@ -516,14 +530,21 @@ func (t *tr) expr(e ast.Expr) (string, bool) {
 			return "(" + a + " == " + b + ")", ma || mb
 		case token.NEQ:
 			return "(" + a + " != " + b + ")", ma || mb
-		case token.LSS:
+		case token.LSS, token.LEQ, token.GTR, token.GEQ:
+			if id, ok := resolve(t.typeOf(x.X)).(*ast.Ident); ok && id.Name == "float64" {
+				// float64 comparisons are uninterpreted (NaN makes them no order)
+				op := map[token.Token]string{token.LSS: "float.lt", token.LEQ: "float.le", token.GTR: "float.gt", token.GEQ: "float.ge"}[x.Op]
+				return "(" + ext(op, "GoFloat → GoFloat → Bool") + " " + a + " " + b + ")", ma || mb
+			}
+			switch x.Op {
+			case token.LEQ:
+				return "decide (" + a + " ≤ " + b + ")", ma || mb
+			case token.GTR:
+				return "decide (" + a + " > " + b + ")", ma || mb
+			case token.GEQ:
+				return "decide (" + a + " ≥ " + b + ")", ma || mb
+			}
 			return "decide (" + a + " < " + b + ")", ma || mb
-		case token.LEQ:
-			return "decide (" + a + " ≤ " + b + ")", ma || mb
-		case token.GTR:
-			return "decide (" + a + " > " + b + ")", ma || mb
-		case token.GEQ:
-			return "decide (" + a + " ≥ " + b + ")", ma || mb
 		case token.ADD:
 			return "(" + a + " + " + b + ")", ma || mb
 		case token.SUB:
@@ -975,7 +996,15 @@ func (t *tr) stmt(ind int, s ast.Stmt) {
 		if len(x.Results) == 1 && len(t.results)-len(mutates[t.key]) > 1 {
 			// return f(…) of a function with as many results
 			c, ok := x.Results[0].(*ast.CallExpr)
-			if !ok || len(t.resultTypes(c)) != len(t.results) {
+			isExt := false
+			if ok {
+				if sel, isSel := c.Fun.(*ast.SelectorExpr); isSel {
+					if id, isId := sel.X.(*ast.Ident); isId {
+						_, isExt = externs[id.Name+"."+sel.Sel.Name]
+					}
+				}
+			}
+			if !ok || (!isExt && len(t.resultTypes(c)) != len(t.results)) {
 				fail("return of %s", src(x.Results[0]))
 			}
 			v, _ := t.call(c)
